@@ -53,8 +53,9 @@ fn build(case: &str, mode: &str, v: Vis, item_vis: &str, site: &str) -> Probe {
     let (item, name) = match mode {
         "fn" => (format!("#[::entrait::entrait({vs}TheTrait)]\n{item_vis}fn the_fn(_deps: &impl Sized) {{}}"), "TheTrait"),
         "mod" => (format!("#[::entrait::entrait({vs}TheTrait)]\n{item_vis}mod m {{ pub fn f(_deps: &impl Sized) {{}} }}"), "TheTrait"),
-        // the delegation-target trait takes the visibility of the original trait
-        _ => (format!("#[::entrait::entrait(TrImpl, delegate_by = DelegateTr)]\n{vs}trait Tr {{ fn m(&self); }}"), "TrImpl"),
+        // the delegation-target trait takes the visibility of the original trait, whatever is written before its name
+        "trait_static" => (format!("#[::entrait::entrait({item_vis}TrImpl, delegate_by = DelegateTr)]\n{vs}trait Tr {{ fn m(&self); }}"), "TrImpl"),
+        _ => (format!("#[::entrait::entrait({item_vis}TrImpl, delegate_by = ref)]\n{vs}trait Tr {{ fn m(&self); }}"), "TrImpl"),
     };
     let site_fn = |rel: &str| format!("#[allow(unused_imports)] fn site() {{ use {rel}::{name} as _; }}");
     let s = |cond: &str, rel: &str| if site == cond { site_fn(rel) } else { String::new() };
@@ -89,9 +90,14 @@ fn all_probes() -> Vec<(String, String, Vis, String, String)> {
             }
         }
     }
-    for v in [Vis::Private, Vis::Pub, Vis::PubCrate, Vis::PubSuper, Vis::PubInA] {
-        for s in SITES {
-            out.push(("trait".to_string(), String::new(), v, String::new(), s.to_string()));
+    for mode in ["trait_static", "trait_ref"] {
+        for v in [Vis::Private, Vis::Pub, Vis::PubCrate, Vis::PubSuper, Vis::PubInA] {
+            // `item_vis` here is the visibility keyword written before the delegation-target trait's name
+            for iv in ["", "pub ", "pub(crate) "] {
+                for s in SITES {
+                    out.push((mode.to_string(), String::new(), v, iv.to_string(), s.to_string()));
+                }
+            }
         }
     }
     out
@@ -112,7 +118,7 @@ fn compile_single(src: &str) -> Result<(), String> {
 
 pub fn run(ctx: &mut Ctx) {
     ctx.rule = "the complete lattice {fn x requested {none, pub, pub(crate), pub(super), pub(in path)} x fn visibility {none, pub, pub(crate)}} + {mod x requested {none, pub, pub(crate)} x mod \
-                visibility {none, pub}} + {trait (delegation-target trait) x trait visibility (5)} x 6 access sites (defining module, child, sibling, uncle, case root, cousin); one compiled probe \
+                visibility {none, pub}} + {trait, static and ref delegation (delegation-target trait) x trait visibility (5) x visibility keyword written before the target trait's name {none, pub, pub(crate)}} x 6 access sites (defining module, child, sibling, uncle, case root, cousin); one compiled probe \
                 per point; non-trivial = probes expected to be rejected (the trait must not be wider than requested) - counted distinct by (mode, visibilities, site)"
         .into();
     ctx.assumptions.push("don't-cares: module mode with pub(super)/pub(in path) (documented as unsupported), the visibility of the selector trait `DelegateTr`; the other-crate site is not built".into());
